@@ -292,7 +292,8 @@ class AudioIO(object):
     Updates internal status about open recording streams. Should be called
     only by the internal closing mechanism of children RecStream instances.
     """
-    self._recordings.remove(recst)
+    # Streams overload "==", so list.remove can't be used to find one
+    self._recordings = [rec for rec in self._recordings if rec is not recst]
 
   def record(self, chunk_size = None,
                    dfmt = "f",
